@@ -13,7 +13,6 @@ import (
 	"hash"
 	"maps"
 	"math"
-	"path/filepath"
 	"runtime"
 	"slices"
 	"sort"
@@ -490,11 +489,10 @@ func (t *RaftTransaction) ListPage(ctx context.Context, prefix string, after str
 	}
 
 	prefixBytes := []byte(prefix)
-	fullAfter := filepath.Join(prefix, after)
-	seekPrefix := []byte(fullAfter)
-	if after == "" {
-		seekPrefix = prefixBytes
-	}
+
+	// See listPageInner: seek to the plain concatenation, never to a cleaned
+	// path.
+	seekPrefix := []byte(prefix + after)
 
 	// Assume the bucket exists and has keys.
 	c := t.tx.Bucket(dataBucketName).Cursor()
